@@ -7,6 +7,7 @@ fails with the patch and passes without it.  Then runs ./check <property> on /re
 """
 import json, os, shutil, subprocess, sys, tempfile
 V = os.path.dirname(os.path.dirname(os.path.abspath(__file__)))
+REPO = os.environ.get('VERIF_REPO', '/repo')   # the working tree the patch is applied to and the check runs against
 ENV = dict(os.environ, GOFLAGS='-mod=mod', GOPROXY='off', GOSUMDB='off', GOTOOLCHAIN='local')
 
 
@@ -57,16 +58,16 @@ def main():
     verdict = None
     detail = ''
     if confirmed:
-        assert sh('git -C /repo status --porcelain', '/')[1].strip() == '', 'repo not clean'
+        assert sh('git -C %s status --porcelain' % REPO, '/')[1].strip() == '', 'repo not clean'
         try:
-            rc, out = sh(['git', '-C', '/repo', 'apply', patch], '/')
+            rc, out = sh(['git', '-C', REPO, 'apply', patch], '/')
             p = subprocess.run([os.path.join(V, 'check'), prop, '--tier', 'quick'], cwd=V, env=dict(os.environ, VERIF_NO_EVIDENCE='1'),
                                stdout=subprocess.PIPE, stderr=subprocess.STDOUT, text=True)
             verdict = {0: 'MISSED', 1: 'DETECTED'}.get(p.returncode, 'ERROR rc %d' % p.returncode)
             d = [l for l in p.stdout.splitlines() if 'is false on the real code' in l][:2]
             detail = ' | '.join(x[:300] for x in d) if d else p.stdout[-300:]
         finally:
-            sh('git -C /repo checkout -- .', '/')
+            sh('git -C %s checkout -- .' % REPO, '/')
     meta.update({'property': prop, 'confirmed': confirmed, 'confirmation': ran, 'check_quick': verdict, 'check_detail': detail})
     json.dump(meta, open(os.path.join(dst, 'meta.json'), 'w'), indent=1)
     print(name, 'confirmed' if confirmed else 'NOT CONFIRMED', ran, '->', verdict, detail[:300])
